@@ -581,7 +581,28 @@ def gen_C13(seed):
     L = abs(tf - t0)
     if with_events:
         scn["events"] = gen_events(r, scn, r.choice([1, 2, 3]), terminal_prob=0.3)
-    sep = scn["problem"]["family"] in ("osc", "duffing", "pendulum")
+    sep = scn["problem"]["family"] in ("osc", "duffing", "pendulum", "tdosc")
+    rb = sub(seed, "blowup")
+    if rb.random() < 0.06:
+        # "whatever happened before": a fixed-step run driven across a finite-time singularity (it completes, with non-finite states),
+        # then reset(), then the same run again on the reset and on a freshly constructed system
+        fam_ = rb.choice(["splitting", "splitting", "explicit_fixed"])
+        s["method"] = pick_method(rb, [fam_])
+        m_ = 1
+        scn["problem"] = {"family": "duffing", "dtype": rb.choice(["float64", "float64", "float32"]), "shape": [2 * m_],
+                          "params": {"a": [1.0], "b": [-round(rb.uniform(0.5, 2.0), 3)]}, "y0": [round(rb.uniform(2.0, 4.0), 3), round(rb.uniform(1.0, 3.0), 3)]}
+        s["t0"], s["tf"] = 0.0, round(direction * rb.uniform(1.5, 3.0), 3)
+        if direction < 0:
+            scn["problem"]["y0"][1] = -scn["problem"]["y0"][1]
+        s["dt"] = round(direction * rb.uniform(0.02, 0.1), 4)
+        s.pop("kick_mask", None)
+        scn["events"] = []
+        scn["ops"] = [{"op": "integrate"}, {"op": "reset"}, {"op": "integrate"}]
+        if rb.random() < 0.4:
+            scn["ops"].insert(2, {"op": "set", "attr": "tf", "value": round(direction * rb.uniform(0.1, 0.2), 4)})
+        scn["knobs"].pop("alloc_cap", None)
+        scn["blowup"] = True
+        return scn
     if r.random() < 0.25:
         # pure split-vs-whole history
         on_grid = r.random() < 0.6
